@@ -29,7 +29,8 @@ SPEC = Spec(
          "(scripts 0 B..20 kB quick / 300 kB thorough), 13 unhandled or unknown commands with any payload, addr (0..1000), unrequested "
          "blocks classic and extended, unknown extended messages, RequestBlock followed by the requested block (classic or extended), "
          "getaddr, ping, pong, reject, repeated version/verack (bursts of 9-15), protoconf — then `ping n`; 8 % of the scripts use a 40 ms tx request timeout "
-         "and announce / deliver / poll the same txids around it (`wait ms=`, `polltx`); observation = pong nonce / "
+         "and announce / deliver / poll the same txids around it (`wait ms=`, `polltx`); 6 % of the messages are replaced by a whole block-request life (RequestBlock, second request while busy, "
+         "CancelBlockRequest before / during / after the block, the block whole or in pieces, a wrong block first); observation = pong nonce / "
          "none / closed within a time bound, every message followed by a barrier ping; non-trivial = >= 5 ops incl. a message",
     assumptions=[
         "per-message consumed byte counts are inferred from where the next message (the barrier ping) is parsed",
